@@ -286,6 +286,10 @@ def run(chk):
     _funcdefnull_rule(chk, full)
     _refindex_rule(chk, full)
     _asmtuple_rule(chk, full)
+    _envfiber_rule(chk, full)
+    _fiberimage_rule(chk, full)
+    _asmarity_rule(chk, full)
+    _pegsigned_rule(chk, full)
 
 
 def _envvalid_rule(chk, prog):
@@ -1728,3 +1732,191 @@ def _asmtuple_rule(chk, prog):
                               "`%s` is read from a tuple of the input whose length was not established on this path: a shorter "
                               "tuple, e.g. (asm {:bytecode ['(retn)] :sourcemap [[]]}), makes asm read past it" % sx.text())
     chk.floor(rule, 8, n)
+
+
+def _envfiber_rule(chk, prog):
+    """`env->as` is a union: a fiber pointer while the environment lives on that fiber's stack (offset > 0), a values
+    pointer once it is detached (offset == 0).  An image can put either kind anywhere - a frame's environment may be
+    already detached, or invalid (janet_env_valid then empties it) - so following `as.fiber` is right only where the
+    on-stack representation has been established on the path, not merely where janet_env_valid was called."""
+    rule = "C10-ENVFIBER"
+    chk.rule(rule, "the fiber member of an environment's union is followed only on paths that established offset > 0 for that environment (or that have just stored it)")
+    n = 0
+    for fn in prog.all_funcs():
+        reads = []
+        for x in fn.nodes:
+            if x.k == "mem" and x.field == "fiber" and x.kids and x.kids[0].k == "mem" and x.kids[0].field == "as" and x.kids[0].rec == "JanetFuncEnv":
+                p_ = x.parent
+                if p_ is not None and p_.k == "asg" and p_.kids[0] is x:
+                    continue            # a store
+                reads.append(x)
+        if not reads or fn.name == "janet_env_valid":
+            continue
+        chk.analysed(fn)
+        stored = set()
+        for x in fn.nodes:
+            if x.k == "asg" and x.kids[0].k == "mem" and x.kids[0].field == "fiber" and x.kids[0].kids and x.kids[0].kids[0].k == "mem" and x.kids[0].kids[0].field == "as":
+                stored.add(x.kids[0].kids[0].kids[0].text().replace(" ", ""))
+        IN, T = flow.condition_facts(fn)
+        res = {}
+        for x, S in flow.states_at(fn, IN, T):
+            for r in reads:
+                if x is r:
+                    e = r.kids[0].kids[0].text().replace(" ", "")
+                    def onstack(ps):
+                        for (op, l, rr, toks, ln, rn) in ps:
+                            if ln is None:
+                                continue
+                            a = strip_casts(ln)
+                            if a.k == "mem" and a.field == "offset" and a.kids[0].text().replace(" ", "") == e:
+                                if (op == ">" and rn is not None and rn.v == 0) or (op == ">=" and rn is not None and (rn.v or 0) >= 1) or \
+                                        (op == "!=" and (rn is None or rn.v == 0) and fn.name in ("janet_env_valid",)):
+                                    return True
+                        return False
+                    res[id(r)] = bool(S) and all(onstack(ps) for ps in S)
+        for r in reads:
+            n += 1
+            chk.instance(rule)
+            e = r.kids[0].kids[0].text().replace(" ", "")
+            if res.get(id(r)) or e in stored:
+                chk.ok(rule, "%s: `%s` under offset > 0" % (fn.name, r.text()[:40]))
+            else:
+                chk.violation(rule, fn.tu.name, fn.name, "as.fiber:" + e, r.loc,
+                              "`%s` follows the fiber member of the union without offset > 0 established on the path: for a detached "
+                              "environment that word is a values pointer, for one that janet_env_valid has just emptied it is NULL - a "
+                              "fiber image can attach either to a frame, and popping that frame crashes" % r.text()[:50])
+    chk.floor(rule, 3, n)
+
+
+def _fiberimage_rule(chk, prog):
+    """What the interpreter takes on trust from a fiber's frames, and the reader therefore has to establish for a
+    fiber that comes out of an image: (1) a fiber that can be resumed has a frame; (2) the bottom frame is an entrance
+    frame - returning from it leaves the interpreter instead of continuing with a frame in front of the stack; (3) a
+    frame that will be continued stopped at an instruction whose destination register exists (the value it is resumed
+    with is stored there; janet_verify bounds that field only for opcodes that have one) and (4) that is not the last
+    instruction (execution goes on with the next one)."""
+    rule = "C10-FIBERIMAGE"
+    chk.rule(rule, "unmarshal_one_fiber establishes what run_vm trusts about frames: a resumable fiber has a frame, the bottom frame is an entrance frame, a continued frame's pc has a destination register inside the frame and a successor instruction")
+    fn = prog.need_func("unmarshal_one_fiber", "marsh.c")
+    chk.analysed(fn)
+    # conditions whose true branch raises
+    guards = []
+    for x in fn.nodes:
+        if x.k == "if" and any(c.k == "call" and c.callee in ("janet_panic", "janet_panicf") for c in x.kids[1].walk()):
+            guards.append(x.kids[0])
+    def any_guard(pred):
+        return next((g for g in guards if pred(g)), None)
+    obligations = []
+    # (1) no frames
+    g = any_guard(lambda c: any(y.k == "bin" and y.op == "==" and any(strip_casts(k).k == "ref" and strip_casts(k).name == "frame" for k in y.kids)
+                                and any(strip_casts(k).v == 0 for k in y.kids) for y in c.walk()))
+    obligations.append(("no-frames", g, "a resumable fiber with frame == 0 is accepted: resuming it reads a frame header in front of the stack allocation"))
+    # (2) entrance flag on the bottom frame: forced or demanded
+    ent = [x for x in fn.nodes if x.k == "asg" and x.op in ("|=", "=") and any("JANET_STACKFRAME_ENTRANCE" in y.macro_names() for y in x.kids[1].walk())]
+    entg = any_guard(lambda c: any("JANET_STACKFRAME_ENTRANCE" in y.macro_names() for y in c.walk()))
+    under = None
+    for e in ent:
+        q = e.parent
+        while q is not None and q.k != "if":
+            q = q.parent
+        if q is not None and any(y.k == "ref" and y.name == "prevframe" for y in q.kids[0].walk()):
+            under = e
+    obligations.append(("bottom-entrance", under or entg, "the bottom frame need not carry JANET_STACKFRAME_ENTRANCE: returning from it makes the interpreter continue with a frame header read from in front of the stack"))
+    # (3) destination register of the instruction at pc
+    g = any_guard(lambda c: any(y.k == "bin" and y.op == ">>" and strip_casts(y.kids[1]).v == 8 for y in c.walk())
+                  and any(y.k == "mem" and y.field == "slotcount" for y in c.walk()))
+    obligations.append(("dest-register", g, "the A field of the instruction a frame stopped at is not compared with slotcount: the value the frame is continued with is stored at stack[A], up to 255 slots above a one-slot frame"))
+    # (4) successor instruction
+    g = any_guard(lambda c: any(y.k == "bin" and y.op == "+" and any(strip_casts(k).k == "ref" and strip_casts(k).name == "pcdiff" for k in y.kids)
+                                and any(strip_casts(k).v == 1 for k in y.kids) for y in c.walk())
+                  and any(y.k == "mem" and y.field == "bytecode_length" for y in c.walk()))
+    obligations.append(("next-instruction", g, "a continued frame may stop at the last instruction of its function: execution goes on with the word after the bytecode"))
+    for key, g, why in obligations:
+        chk.instance(rule)
+        if g is not None:
+            chk.ok(rule, "unmarshal_one_fiber: %s established (`%s`)" % (key, g.text()[:60]))
+        else:
+            chk.violation(rule, "marsh.c", "unmarshal_one_fiber", key, fn.loc, why)
+    chk.floor(rule, 4)
+
+
+def _asmarity_rule(chk, prog):
+    """asm takes :arity, :min-arity and :max-arity from its input as any int32.  fiber/new and the call path use them
+    as counts (janet_fiber(func, cap, min_arity, NULL) nil-fills min_arity slots), so each needs a lower bound."""
+    rule = "C10-ASMARITY"
+    chk.rule(rule, "janet_asm1 bounds each arity field it reads from the input from below (>= 0, or >= a field that is)")
+    fn = prog.need_func("janet_asm1", "asm.c")
+    chk.analysed(fn)
+    lower = {}
+    for x in fn.nodes:
+        if x.k == "bin" and x.op in (">=", "<=", ">", "<") and "janet_asm_assert" in x.macro_names():
+            a, b = strip_casts(x.kids[0]), strip_casts(x.kids[1])
+            if x.op in ("<=", "<"):
+                a, b = b, a             # normalise to a >= b
+            if a.k == "mem" and a.rec == "JanetFuncDef" and a.field in ("arity", "min_arity", "max_arity"):
+                if b.k == "int" and (b.v or 0) >= 0:
+                    lower[a.field] = "0"
+                elif b.k == "mem" and b.rec == "JanetFuncDef":
+                    lower.setdefault(a.field, b.field)
+    fields = [x.kids[0].field for x in fn.nodes if x.k == "asg" and x.kids[0].k == "mem" and x.kids[0].rec == "JanetFuncDef"
+              and x.kids[0].field in ("arity", "min_arity", "max_arity") and any(y.k == "call" or "janet_unwrap_integer" in y.macro_names() for y in x.kids[1].walk())]
+    if len(set(fields)) < 3:
+        raise AnalysisBroken("janet_asm1: arity fields read from the input not found (%s)" % sorted(set(fields)))
+    for f in sorted(set(fields)):
+        chk.instance(rule)
+        seen, cur = set(), f
+        while cur in lower and lower[cur] != "0" and cur not in seen:
+            seen.add(cur)
+            cur = lower[cur]
+        if lower.get(cur) == "0":
+            chk.ok(rule, "janet_asm1: %s >= 0%s" % (f, "" if cur == f else " through %s" % cur))
+        else:
+            chk.violation(rule, "asm.c", "janet_asm1", "unbounded:" + f, fn.loc,
+                          "`def->%s` comes from the input and is never bounded from below: (fiber/new (asm {:min-arity -100000 ...})) "
+                          "passes it on as an argument count and the frame set-up writes in front of the fiber's stack" % f)
+    chk.floor(rule, 3)
+
+
+def _pegsigned_rule(chk, prog):
+    """PEG operands are uint32 words; where the matcher reads one as a SIGNED number and indexes with it (the `argument`
+    rule: extrav[index]), a word with the top bit set - which the image verifier does not mind - is a negative index."""
+    rule = "C10-PEGSIGNED"
+    chk.rule(rule, "an operand that the PEG matcher reads as a signed integer and uses as an index is bounded from below (in the matcher, or rejected by the image verifier)")
+    tu = prog.tus["peg.c"]
+    fn = next((f for f in tu.funcs.values() if f.name == "peg_rule"), None)
+    ver = next((f for f in tu.funcs.values() if f.name == "peg_unmarshal"), None)
+    if fn is None or ver is None:
+        raise AnalysisBroken("peg_rule / peg_unmarshal not found")
+    chk.analysed(fn)
+    signed = {}
+    for x in fn.nodes:
+        if x.k == "vardecl" and x.kids and (x.t or "") in ("int32_t", "int") and \
+                any(y.k == "cast" and (y.t or "").replace(" ", "") == "int32_t*" for y in x.kids[0].walk()) and \
+                any(y.k == "ref" and y.name == "rule" for y in x.kids[0].walk()):
+            signed[x.name] = x
+    sites = [x for x in fn.nodes if x.k == "sub" and strip_casts(x.kids[1]).k == "ref" and strip_casts(x.kids[1]).name in signed]
+    if not sites:
+        raise AnalysisBroken("peg_rule: no signed operand used as an index any more (re-derive the rule)")
+    # does the verifier reject a negative operand for that opcode (a signed comparison of the operand word with 0)
+    ver_rejects = any(x.k == "bin" and x.op == "<" and strip_casts(x.kids[1]).v == 0 and x.kids[0].k == "cast" and "int32_t" in (x.kids[0].t or "")
+                      and any(y.k == "ref" and y.name == "rule" for y in x.kids[0].walk()) for x in ver.nodes)
+    IN, T = flow.condition_facts(fn)
+    res = {}
+    for x, S in flow.states_at(fn, IN, T):
+        for sx in sites:
+            if x is sx:
+                v = strip_casts(sx.kids[1]).name
+                res[id(sx)] = bool(S) and all(any(ln is not None and strip_casts(ln).k == "ref" and strip_casts(ln).name == v and
+                                                  ((op == ">=" and rn is not None and rn.v == 0) or (op == ">" and rn is not None and rn.v == -1))
+                                                  for (op, l, r, toks, ln, rn) in ps) for ps in S)
+    for sx in sites:
+        chk.instance(rule)
+        if res.get(id(sx)):
+            chk.ok(rule, "peg_rule: `%s` after a lower bound" % sx.text())
+        elif ver_rejects and id(sx) not in res:
+            chk.ok(rule, "peg_rule: `%s` (folded copy)" % sx.text())
+        else:
+            chk.violation(rule, "peg.c", "peg_rule", "signed-index:" + sx.text().replace(" ", ""), sx.loc,
+                          "`%s` indexes with an operand read as int32 and bounded only from above: an image whose operand word has the "
+                          "top bit set reads in front of the array (index -1 returns a forged value, a large one crashes)" % sx.text())
+    chk.floor(rule, 1, len(sites))
